@@ -331,8 +331,12 @@ class RegexCompiler:
 
         # Required iterations
         for _ in range(min_count):
+            start = self._current_offset()
             self._emit_capture_reset(groups)
             self._compile_node(body)
+            if self._current_offset() == start:
+                # The body compiles to nothing: further copies add nothing
+                break
 
         # One position register serves every optional iteration: an iteration is
         # only entered after the previous one has been checked
